@@ -18,12 +18,13 @@ structure Stable (w w' : World) : Prop where
   cli : ∀ ci c, getCli w ci = some c → ∃ c', getCli w' ci = some c'
   cache : ∀ ci c', getCli w' ci = some c' → ∃ c, getCli w ci = some c ∧ c'.cache.length = c.cache.length
   srv : ∀ si s', getSrv w' si = some s' → ∃ s, getSrv w si = some s ∧ s'.slots.length = s.slots.length ∧ (s.nextid ≤ 256 → s'.nextid ≤ 256)
+  ord : w'.nextOrd = w.nextOrd
 
 theorem Stable.refl (w : World) : Stable w w :=
-  ⟨fun _ r' h => ⟨r', h, rfl⟩, fun _ c h => ⟨c, h⟩, fun _ c' h => ⟨c', h, rfl⟩, fun _ s' h => ⟨s', h, rfl, id⟩⟩
+  ⟨fun _ r' h => ⟨r', h, rfl⟩, fun _ c h => ⟨c, h⟩, fun _ c' h => ⟨c', h, rfl⟩, fun _ s' h => ⟨s', h, rfl, id⟩, rfl⟩
 
 theorem Stable.trans {a b c : World} (h1 : Stable a b) (h2 : Stable b c) : Stable a c := by
-  refine ⟨?_, ?_, ?_, ?_⟩
+  refine ⟨?_, ?_, ?_, ?_, h2.ord.trans h1.ord⟩
   · intro o r' h
     obtain ⟨r, hr, e⟩ := h2.frm o r' h
     obtain ⟨r0, hr0, e0⟩ := h1.frm o r hr
@@ -54,8 +55,8 @@ theorem Stable.wf {w w' : World} (h : Stable w w') (wf : WF w) : WF w' := by
 
 /-- only the heap changed, and no surviving object was re-homed -/
 theorem stable_heap (w w' : World) (hs : w'.servers = w.servers) (hc : w'.clients = w.clients)
-    (hf : ∀ o r', getRq w' o = some r' → ∃ r, getRq w o = some r ∧ r'.frm = r.frm) : Stable w w' := by
-  refine ⟨hf, ?_, ?_, ?_⟩
+    (hf : ∀ o r', getRq w' o = some r' → ∃ r, getRq w o = some r ∧ r'.frm = r.frm) (ho : w'.nextOrd = w.nextOrd := by rfl) : Stable w w' := by
+  refine ⟨hf, ?_, ?_, ?_, ho⟩
   · intro ci c h; exact ⟨c, by unfold getCli at *; rw [hc]; exact h⟩
   · intro ci c' h; exact ⟨c', by unfold getCli at *; rw [← hc]; exact h, rfl⟩
   · intro si s' h; exact ⟨s', by unfold getSrv at *; rw [← hs]; exact h, rfl, id⟩
@@ -120,7 +121,7 @@ theorem stable_freerq (w : World) (o : Nat) : Stable w (freerq w o) := by
 
 theorem stable_updCli (w : World) (ci : Nat) (f : Client → Client) (hf : ∀ c, (f c).cache.length = c.cache.length) :
     Stable w (updCli w ci f) := by
-  refine ⟨?_, ?_, ?_, ?_⟩
+  refine ⟨?_, ?_, ?_, ?_, by unfold updCli; split <;> rfl⟩
   · intro o r' h; rw [Refs.getRq_updCli] at h; exact ⟨r', h, rfl⟩
   · intro cj c h
     by_cases hj : cj = ci
@@ -142,7 +143,7 @@ theorem stable_updCli (w : World) (ci : Nat) (f : Client → Client) (hf : ∀ c
 
 theorem stable_updSrv (w : World) (si : Nat) (f : Server → Server) (hf : ∀ s, (f s).slots.length = s.slots.length)
     (hn : ∀ s, s.nextid ≤ 256 → (f s).nextid ≤ 256) : Stable w (updSrv w si f) := by
-  refine ⟨?_, ?_, ?_, ?_⟩
+  refine ⟨?_, ?_, ?_, ?_, by unfold updSrv; split <;> rfl⟩
   · intro o r' h; rw [Refs.getRq_updSrv] at h; exact ⟨r', h, rfl⟩
   · intro ci c h; exact ⟨c, by rw [Refs.getCli_updSrv]; exact h⟩
   · intro ci c' h; rw [Refs.getCli_updSrv] at h; exact ⟨c', h, rfl⟩
@@ -302,8 +303,9 @@ theorem stable_addclientrq (w : World) (o : Nat) : Stable w (addclientrq w o).1 
             · simp only [Bool.false_eq_true, if_false]
               exact Stable.trans (Stable.trans (stable_removeclientrq w ci _) (stable_newrqref _ o)) (stable_updCli _ ci _ (fun c => by simp))
 
-theorem stable_same (w w' : World) (hh : w'.heap = w.heap) (hs : w'.servers = w.servers) (hc : w'.clients = w.clients) : Stable w w' :=
-  stable_heap w w' hs hc (fun o r' h => ⟨r', by unfold getRq at *; rw [← hh]; exact h, rfl⟩)
+theorem stable_same (w w' : World) (hh : w'.heap = w.heap) (hs : w'.servers = w.servers) (hc : w'.clients = w.clients)
+    (ho : w'.nextOrd = w.nextOrd := by rfl) : Stable w w' :=
+  stable_heap w w' hs hc (fun o r' h => ⟨r', by unfold getRq at *; rw [← hh]; exact h, rfl⟩) ho
 
 theorem stable_choosesrv (w : World) (l : List Nat) : Stable w (choosesrv w l).1 := by
   unfold choosesrv
